@@ -51,6 +51,10 @@ where
         HashMap::get(self, key)
     }
 
+    fn peek(&self, key: &K) -> Option<&Entry<V>> {
+        HashMap::get(self, key)
+    }
+
     fn remove(&mut self, key: &K) -> Option<Entry<V>> {
         self.remove(key)
     }
